@@ -1,4 +1,5 @@
 //@host src/io_loop/mod.rs
+//@quick (generic sweep without wall-clock dependence: also runs in the quick tier, labelled bounded)
 // C15 bounded stand-in, end to end through the public API against a scripted in-memory broker:
 // server Tune (channel_max in {0, 1, 5, 65535}, frame_max in {0, 4095, 4096, 4097, 131072, u32::MAX}, heartbeat in {0, 30, 65535}) x
 // client options (channel_max in {0, 3, 4000}, frame_max in {0, 4096, 8192, 200000}, heartbeat in {0, 10, 60}) = 2592 handshakes.
